@@ -73,3 +73,23 @@ package bytes
 //@   property C01 C04 C02
 //@   ensures len(result.data) == unquotedLen(b)
 //@   no_panic
+
+//@ pred isBlankByte(c Int) := c == 32 || c == 9 || c == 10 || c == 13
+
+//@ func (Bytes).TrimSpacesFromLeft
+//@   property C16 C02
+//@   ensures result.data.arr == b.data.arr && result.data.off + len(result.data) == b.data.off + len(b.data) && len(result.data) <= len(b.data)
+//@   no_panic
+//@   loop#1 invariant -1 <= rangeindex && rangeindex < len(b.data)
+//@   loop#1 decreases len(b.data) - rangeindex
+
+// number of leading blank bytes, 0 if every byte is blank
+//@ func (Bytes).CountSpacesFromLeft
+//@   property C16 C02
+//@   ensures 0 <= result && result <= len(b.data)
+//@   ensures forall j :: 0 <= j && j < result ==> isBlankByte(b.data[j])
+//@   ensures result > 0 ==> result < len(b.data) && !isBlankByte(b.data[result])
+//@   no_panic
+//@   loop#1 invariant -1 <= rangeindex && rangeindex < len(b.data)
+//@   loop#1 invariant forall j :: 0 <= j && j <= rangeindex ==> isBlankByte(b.data[j])
+//@   loop#1 decreases len(b.data) - rangeindex
